@@ -19,8 +19,9 @@ import (
 // replayer forces each schedule on the real daemon through the verif yield points and observes the outcome.
 
 type earlyRelease struct {
-	After int    `json:"after"` // after this many schedule entries ...
-	Actor string `json:"actor"` // ... this actor is let go without waiting for it (it will block on a lock)
+	After  int    `json:"after"`  // after this many schedule entries ...
+	Actor  string `json:"actor"`  // ... this actor is let go without waiting for it (it will block on a lock)
+	Launch bool   `json:"launch"` // ... it has not been started yet: it is started (and must then block before its first yield point)
 }
 
 type pairCase struct {
@@ -51,6 +52,7 @@ type pairObs struct {
 	Case      pairCase `json:"case"`
 	Done      bool     `json:"done"`
 	Blocked   string   `json:"blocked,omitempty"`
+	Breach    string   `json:"breach,omitempty"` // an operation that NsqdCore says waits for a lock went ahead
 	Incon     string   `json:"inconclusive,omitempty"`
 	NIfm      int      `json:"nifm"`
 	NIfm1     int      `json:"nifm1"`
@@ -123,6 +125,7 @@ type actor struct {
 	parked   bool // launched during the set-up and waiting for input: its first segment ENDS at gate 0
 	taken    bool // ... and that first segment has been accounted for
 	free     bool // not gated
+	early    bool // started ahead of its turn (it waits on a lock): its first segment ENDS when it shows up at gate 0
 	done     chan struct{}
 	finished bool
 	launch   func()
@@ -281,7 +284,39 @@ func replayPair(pc pairCase, dir string) *pairObs {
 	if _, err := c1.barrier(10 * time.Second); err != nil {
 		return fail("barrier: %v", err)
 	}
-	if pc.Situation != "k2waiting" {
+	if pc.Situation == "twoflight" {
+		// m2 goes in flight to k2 (m1 stays in flight to k1): two messages for one scan
+		c2.cmd("RDY", "", "1")
+		if st, _, err := nd.post("/pub?topic=t", []byte("m2")); err != nil || st != 200 {
+			return fail("pub m2")
+		}
+		f2, ok := c2.next(10 * time.Second)
+		if !ok || f2.Type != 2 {
+			return fail("m2 not delivered to k2")
+		}
+		c2.cmd("RDY", "", "0")
+		if _, err := c2.barrier(10 * time.Second); err != nil {
+			return fail("barrier: %v", err)
+		}
+	}
+	if pc.Situation == "k1deferred" {
+		// k1 requeues m1 with a long delay: it waits in the deferred map, k1 stays connected
+		c1.cmd("REQ", m1, "600000")
+		if _, err := c1.barrier(10 * time.Second); err != nil {
+			return fail("barrier: %v", err)
+		}
+		for i := 0; ; i++ {
+			_, _, dm, _, _ := nsqd.VerifChannelSnapshot(ch)
+			if dm == 1 {
+				break
+			}
+			if i > 2000 {
+				return fail("m1 did not reach the deferred map")
+			}
+			time.Sleep(2 * time.Millisecond)
+		}
+	}
+	if pc.Situation != "k2waiting" && pc.Situation != "twoflight" {
 		if st, _, err := nd.post("/pub?topic=t", []byte("m2")); err != nil || st != 200 {
 			return fail("pub m2")
 		}
@@ -321,7 +356,9 @@ func replayPair(pc pairCase, dir string) *pairObs {
 		case "SCAN":
 			a.gates = []string{gid("scan.afterPeek", cname), gid("scan.afterPop", cname)}
 			a.launch = func() {
-				go func() { nsqd.VerifScan(ch, time.Now().Add(time.Hour).UnixNano()); close(a.done) }()
+				// (the in-flight half only: the worker's deferred half is a critical section of its own, which a waiting
+				// Channel.Close may get in front of)
+				go func() { nsqd.VerifScanInFlight(ch, time.Now().Add(time.Hour).UnixNano()); close(a.done) }()
 			}
 		case "DELIVER":
 			a.gates = []string{gid("pump.afterRecv", k2), gid("sift.afterMapPush", k2), gid("pump.afterStart", k2)}
@@ -411,6 +448,9 @@ func replayPair(pc pairCase, dir string) *pairObs {
 	step := func(x string) string {
 		a := actors[x]
 		if a.finished {
+			if obs.Breach != "" {
+				return "" // it was let run to its end when it went past the lock (see Early)
+			}
 			return "already finished"
 		}
 		if a.parked && !a.taken {
@@ -422,6 +462,12 @@ func replayPair(pc pairCase, dir string) *pairObs {
 		} else if !a.launched {
 			a.launched = true
 			a.launch()
+		} else if a.early {
+			// started ahead of its turn: this step is its first segment, over once it shows up at its first yield point
+			a.early = false
+			if a.pos >= 0 {
+				return ""
+			}
 		} else {
 			g.release(a.gates[a.pos])
 		}
@@ -444,9 +490,65 @@ func replayPair(pc pairCase, dir string) *pairObs {
 	for i, x := range pc.Sched {
 		for _, e := range pc.Early {
 			if e.After == i {
-				if b := actors[e.Actor]; b != nil && b.launched && !b.finished && b.pos >= 0 {
+				if b := actors[e.Actor]; b != nil && b.launched && !b.finished && b.pos >= 0 && !e.Launch {
 					g.release(b.gates[b.pos]) // it runs up to the lock somebody else holds
 					time.Sleep(5 * time.Millisecond)
+				}
+				if b := actors[e.Actor]; b != nil && e.Launch && !b.launched {
+					// started while the other operation holds the lock it needs: it has to sit on that lock.  If it
+					// reaches its first yield point all the same, the lock did not hold it: it is then let run to its end
+					// BEFORE the other operation goes on -- the execution the lock exists to rule out -- and the outcome
+					// is judged like any other
+					b.launched = true
+					b.early = true
+					b.launch()
+					arrived := false
+					tmo := time.After(400 * time.Millisecond)
+				waitEarly:
+					for {
+						select {
+						case id := <-g.arrived:
+							note(id)
+							if b.pos >= 0 {
+								arrived = true
+								break waitEarly
+							}
+						case <-b.done:
+							b.finished = true
+							arrived = true
+							break waitEarly
+						case <-tmo:
+							break waitEarly
+						}
+					}
+					if arrived {
+						obs.Breach = "operation " + b.op + " went ahead although " + pc.OpA + " was inside the section that holds it off"
+						for !b.finished {
+							if b.pos >= 0 {
+								g.release(b.gates[b.pos])
+							}
+							adv := false
+							t2 := time.After(5 * time.Second)
+						waitRun:
+							for {
+								select {
+								case id := <-g.arrived:
+									note(id)
+									adv = true
+									break waitRun
+								case <-b.done:
+									b.finished = true
+									adv = true
+									break waitRun
+								case <-t2:
+									break waitRun
+								}
+							}
+							if !adv {
+								break
+							}
+						}
+					}
 				}
 			}
 		}
